@@ -61,7 +61,7 @@ func genForeign(r *rand.Rand, i int) foreignHello {
 	var fh foreignHello
 	fh.tlsSafe = true
 	grease := func() int { v := r.Intn(16); return v<<12 | 0x0a00 | v<<4 | 0x0a }
-	legacy := []int{0x0301, 0x0302, 0x0303, 0x0303, 0x0303}[r.Intn(5)]
+	legacy := []int{0x0301, 0x0302, 0x0303, 0x0303, 0x0303, 0x0304, 0x0300}[r.Intn(7)]
 	b := be16(nil, legacy)
 	b = append(b, randBytes(r, 32)...)
 	b = vec8(b, randBytes(r, []int{0, 0, 1, 32, 32}[r.Intn(5)]))
@@ -255,9 +255,7 @@ func TestForeignHellos(t *testing.T) {
 			}()
 			sc := newScriptConn(sent)
 			var opts []ech.Option
-			if keySets[ksn] != nil {
-				opts = append(opts, keyOptions(keySets[ksn])...)
-			}
+			opts = append(opts, keyOptions(keySets[ksn])...)
 			c, err := ech.NewConn(t.Context(), sc, opts...)
 			if err != nil {
 				diff = "NewConn failed on a syntactically valid hello: " + err.Error()
